@@ -1,12 +1,18 @@
 package harbor
 
 import (
+	"fmt"
 	"time"
 
+	abci "github.com/cometbft/cometbft/abci/types"
 	sdk "github.com/cosmos/cosmos-sdk/types"
 
+	aucv1 "github.com/comdex-official/comdex/x/auction"
+	aucv1types "github.com/comdex-official/comdex/x/auction/types"
 	auctypes "github.com/comdex-official/comdex/x/auctionsV2/types"
 	esmtypes "github.com/comdex-official/comdex/x/esm/types"
+	liqv1 "github.com/comdex-official/comdex/x/liquidation"
+	liqv1types "github.com/comdex-official/comdex/x/liquidation/types"
 	liqtypes "github.com/comdex-official/comdex/x/liquidationsV2/types"
 	vaulttypes "github.com/comdex-official/comdex/x/vault/types"
 
@@ -91,6 +97,27 @@ func (w *World) Do(a Act) Res {
 			CollateralToken: sdk.NewInt64Coin(a.D, a.X), DebtToken: sdk.NewInt64Coin("ust", a.Y), CollateralAssetId: w.Assets[a.D], DebtAssetId: w.Assets["ust"], IsDebtCmst: false}))
 	case "Reserve":
 		return res(w.Deliver(&liqtypes.MsgAppReserveFundsRequest{AppId: app, AssetId: w.Assets[a.D], TokenQuantity: sdk.NewInt64Coin(a.D, a.X), From: from}))
+	case "V1Liquidate": // first-generation liquidate message (reachable on a real chain although the V1 sweep is not wired)
+		return res(w.Deliver(&liqv1types.MsgLiquidateVaultRequest{From: from, AppId: app, VaultId: a.V}))
+	case "V1Bid": // first-generation Dutch bid: the bidder names the COLLATERAL amount wanted (X of denom D); the handler computes the debt to pay
+		return res(w.Deliver(&aucv1types.MsgPlaceDutchBidRequest{AuctionId: a.V, Bidder: from, Amount: sdk.Coin{Denom: a.D, Amount: sdk.NewInt(a.X)},
+			AppId: app, AuctionMappingId: V1DutchMappingID}))
+	case "V1Sweep": // environment: x/liquidation's begin blocker (not wired in app.go; called directly, as the repository's tests do)
+		return w.hook(func() { liqv1.BeginBlocker(w.Ctx, abci.RequestBeginBlock{}, w.App.LiquidationKeeper) })
+	case "V1Tick": // environment: x/auction's begin blocker (price update / restart of V1 Dutch auctions)
+		return w.hook(func() {
+			aucv1.BeginBlocker(w.Ctx, w.App.AuctionKeeper, w.App.AssetKeeper, w.App.CollectorKeeper, w.App.EsmKeeper)
+		})
+	case "EsmDeposit": // emergency shutdown: governance-token deposit towards the trigger target
+		return res(w.Deliver(&esmtypes.MsgDepositESM{AppId: app, Depositor: from, Amount: sdk.NewInt64Coin("uhb", a.X)}))
+	case "EsmExecute":
+		return res(w.Deliver(&esmtypes.MsgExecuteESM{AppId: app, Depositor: from}))
+	case "EsmRedeem": // after the cool-off: hand in debt coins for the pro-rata share of the collateral registered for redemption
+		d := a.D
+		if d == "" || d == "-" {
+			d = "ust"
+		}
+		return res(w.Deliver(&esmtypes.MsgCollateralRedemptionRequest{AppId: app, Amount: sdk.NewInt64Coin(d, a.X), From: from}))
 	case "Price": // environment: oracle publishes a new value / switches the feed off
 		w.SetPrice(w.Assets[a.D], uint64(a.Y), a.On)
 		return Res{OK: true}
@@ -102,4 +129,26 @@ func (w *World) Do(a Act) Res {
 		return Res{OK: !br.Panic, Panic: br.Panic, Err: br.Err}
 	}
 	return Res{OK: false, Err: "unknown action " + a.A}
+}
+
+// hook runs an unwired begin blocker on a cache branch of the working context: a panic escaping the hook is
+// recorded (it would halt a chain that wires the hook) and leaves the state untouched, like a failed block.
+func (w *World) hook(f func()) (r Res) {
+	keep := w.Ctx
+	cctx, write := w.Ctx.CacheContext()
+	w.Ctx = cctx
+	defer func() {
+		w.Ctx = keep
+		if p := recover(); p != nil {
+			e := fmt.Sprint(p)
+			if len(e) > 160 {
+				e = e[:160]
+			}
+			r = Res{OK: false, Panic: true, Err: e}
+			return
+		}
+		write()
+	}()
+	f()
+	return Res{OK: true}
 }
